@@ -12,6 +12,7 @@ CONSTANTS
   MaxHsFail = 1
   MaxReads = 1
   AllowClose = TRUE
+  LateOk = FALSE
   FixWL = FALSE
   GenCanon = FALSE
 VIEW StView
